@@ -76,6 +76,8 @@ pub fn near(r: &Rat) -> Option<A> {
 const V_QUICK: &[&str] = &[
     "0", "1", "-1", "2", "3", "0.5", "0.1", "0.3", "17.4", "-17.4", "0.37", "2.54", "60", "1024", "1e-9", "1e-6",
     "1e-3", "1e3", "1e6", "1e9", "1e12", "123456.789",
+    // below f64::EPSILON in absolute value (a tolerance written as an absolute epsilon treats them as zero / equal)
+    "1e-17", "-5e-19",
 ];
 
 pub fn alphabet_v(tier: Tier) -> Vec<A> {
@@ -105,9 +107,9 @@ pub fn alphabet_v(tier: Tier) -> Vec<A> {
 /// a smaller value alphabet for products of three alphabets
 pub fn alphabet_small(tier: Tier) -> Vec<A> {
     let base: &[&str] = if tier == Tier::Thorough {
-        &["0", "1", "-1", "2", "0.5", "0.1", "17.4", "-2.54", "60", "1e-6", "1e3", "1e9", "123456.789", "0.37", "3"]
+        &["0", "1", "-1", "2", "0.5", "0.1", "17.4", "-2.54", "60", "1e-6", "1e3", "1e9", "123456.789", "0.37", "3", "1e-17", "-5e-19"]
     } else {
-        &["0", "1", "-1", "2", "0.5", "17.4", "-2.54", "1e-6", "1e3", "123456.789"]
+        &["0", "1", "-1", "2", "0.5", "17.4", "-2.54", "1e-6", "1e3", "123456.789", "1e-17"]
     };
     dedup(base.iter().map(|s| parse(s)).collect())
 }
